@@ -260,6 +260,8 @@ class Server:
             return c
         if "const" in spec:
             return C.canon(O.resolve_const(spec))
+        if "copy" in spec:
+            return self.arg_canon(spec["copy"], regc)     # a copy is an equal argument
         if "list" in spec:
             return ["list", [self.arg_canon(s, regc) for s in spec["list"]]]
         if "tuple" in spec:
